@@ -13,7 +13,7 @@ from ..ref import names
 from ..report import HarnessError
 
 RULE = ('patterns = all sequences of <=d segments over {literal, {v}, {v}-{w}, {v}_{w}, {v}~{w}, {v}.{w}, {a}-{b}~{c}} with an '
-        'optional trailing {v=**} or trailing literal, <=6 variables, plus "*"; x 7 resource sources; values = every class for '
+        'optional trailing {v=**} or trailing literal, <=6 variables, plus "*"; x 9 resource sources; values = every class for '
         'all variables + every single-variable deviation; near misses from the reference tokenizer; non-trivial = distinct '
         '(pattern, valuation) with >=1 variable')
 
@@ -54,6 +54,12 @@ def patterns(depth):
     return out
 
 
+SOURCES = ['msg-field', 'file-def', 'child-type', 'type-ref', 'dep-file-def', 'dep-msg-ref', 'lro-response', 'deep-ref', 'redeclared-common']
+COMMON_TYPES = [('cloudresourcemanager.googleapis.com/Project', 'project'), ('cloudresourcemanager.googleapis.com/Organization', 'organization'),
+                ('cloudresourcemanager.googleapis.com/Folder', 'folder'), ('cloudbilling.googleapis.com/BillingAccount', 'billing_account'),
+                ('locations.googleapis.com/Location', 'location')]
+
+
 def type_name(i):
     a = []
     n = i
@@ -70,12 +76,24 @@ def build(pats, chunk_id):
     dep_defs, dep_msgs = [], []
     lro_fields = [field('tag', 1, 'string')]
     rq_fields, rs_fields = [field('name', 1, 'string')], []
+    deep_fields = [field('leaf', 1, 'string')]
+    redeclared = list(COMMON_TYPES)
     for j, pat in enumerate(pats):
         i = chunk_id * 10000 + j
         tn = type_name(j)
         rtype = f'{DOM}/{tn}'
-        src = j % 7
-        if src == 6:      # message resource reachable only through the response type of a long-running operation
+        src = j % 9
+        helper = names.snake(tn)
+        if src == 8 and (not redeclared or pat == '*'):
+            src = 7
+        if src == 8:      # the API declares one of the five well-known resource types itself, with its own pattern
+            rtype, helper = redeclared.pop(0)
+            defs.append((rtype, pat))
+            rq_fields.append(field(f'f{j}', len(rq_fields) + 1, 'string', child_ref=rtype))
+        elif src == 7:    # file-level definition referenced only from a message three levels below the request
+            defs.append((rtype, pat))
+            deep_fields.append(field(f'f{j}', len(deep_fields) + 1, 'string', ref=rtype))
+        elif src == 6:      # message resource reachable only through the response type of a long-running operation
             msgs.append(message(tn, [field('name', 1, 'string')], resource=(rtype, pat)))
             lro_fields.append(field(f'f{j}', len(lro_fields) + 1, Q(tn)))
         elif src == 4:      # file-level definition in an imported file of another package
@@ -96,8 +114,11 @@ def build(pats, chunk_id):
         else:             # message resource referenced through type
             msgs.append(message(tn, [field('name', 1, 'string')], resource=(rtype, pat)))
             rq_fields.append(field(f'f{j}', len(rq_fields) + 1, 'string', ref=rtype))
-        cells.append(dict(id=f'{["msg-field", "file-def", "child-type", "type-ref", "dep-file-def", "dep-msg-ref", "lro-response"][src]}:{pat}', pattern=pat,
-                          helper=names.snake(tn), source=src))
+        cells.append(dict(id=f'{SOURCES[src]}:{pat}', pattern=pat, helper=helper, source=src))
+    msgs.append(message('Deep3', deep_fields))
+    msgs.append(message('Deep2', [field('d3', 1, Q('Deep3')), field('x', 2, 'int32')]))
+    msgs.append(message('Deep1', [field('d2', 1, Q('Deep2'), repeated=True)]))
+    rq_fields.append(field('deep', len(rq_fields) + 1, Q('Deep1')))
     msgs.append(message('GetRq', rq_fields))
     msgs.append(message('GetRs', rs_fields))
     msgs.append(message('LroOut', lro_fields))
